@@ -1,0 +1,42 @@
+//go:build verif
+
+package txlocator
+
+import "github.com/icon-project/goloop/module"
+
+// VerifWaitFlush blocks until every queued locator flush job has been
+// written to the database and applied to the cache (verification harness
+// only; makes the asynchronous part of Commit observable).
+func VerifWaitFlush(lm module.LocatorManager) {
+	if m, ok := lm.(*manager); ok {
+		m.flushWG.Wait()
+	}
+}
+
+// VerifCacheInfo reports the number of cached transaction lists, the number
+// of cached locators and maxTSInDB for a group (verification harness only).
+func VerifCacheInfo(lm module.LocatorManager, group module.TransactionGroup) (lists int, locators int, maxTSInDB int64) {
+	m, ok := lm.(*manager)
+	if !ok {
+		return 0, 0, 0
+	}
+	m.lock.Lock()
+	defer m.lock.Unlock()
+	for ptr := m.cache[group].head; ptr != nil; ptr = ptr.next {
+		lists++
+	}
+	return lists, len(m.locators), m.cache[group].maxTSInDB
+}
+
+// VerifCached tells whether the id is in the in-memory locator cache
+// (verification harness only; used for labelling witnesses).
+func VerifCached(lm module.LocatorManager, id []byte) bool {
+	m, ok := lm.(*manager)
+	if !ok {
+		return false
+	}
+	m.lock.Lock()
+	defer m.lock.Unlock()
+	_, has := m.locators[string(id)]
+	return has
+}
